@@ -99,7 +99,7 @@ func (s *StreamRecipe) Build() *Built {
 			// behind a history of full-size uncompressed chunks
 			pre := []string{"UD"}
 			o.ForceSize, o.Costly = map[int]int{0: 1 << 16}, map[int]bool{}
-			for i := r.Range(0, 10); i > 0; i-- {
+			for i := r.Range(0, 4); i > 0; i-- {
 				o.ForceSize[len(pre)] = 1 << 16
 				pre = append(pre, "U")
 			}
